@@ -363,6 +363,22 @@ class TestSchemaMismatch:
         err = _extract_error(content)
         assert err is not None
 
+    def test_dataclass_blob_value_without_python_counterpart(self, client: _SyncTestClient) -> None:
+        """A nested dataclass blob whose value cannot become a Python object is the caller's error (400)."""
+        inner_schema = pa.schema([pa.field("output_schema", pa.timestamp("s")), pa.field("sample_batch", pa.binary())])
+        inner = pa.RecordBatch.from_pydict({"output_schema": [2**62], "sample_batch": [b""]}, schema=inner_schema)
+        blob = BytesIO()
+        with ipc.new_stream(blob, inner_schema) as writer:
+            writer.write_batch(inner)
+        schema = pa.schema([pa.field("result", pa.binary(), nullable=False)])
+        batch = pa.RecordBatch.from_pydict({"result": [blob.getvalue()]}, schema=schema)
+        resp = client.post(f"{_BASE_URL}/inspect", content=_craft_request("inspect", schema, batch), headers=_CT)
+        # as_py() raises OverflowError while the blob is decoded -- before the
+        # method runs.  That is a malformed parameter, not a server failure.
+        assert resp.status_code == 400
+        assert "X-VGI-RPC-Error" not in resp.headers
+        assert _extract_error(resp.content) is not None
+
     def test_empty_schema(self, client: _SyncTestClient) -> None:
         """Empty schema (no columns) for a method that expects parameters returns 400."""
         schema = pa.schema([])
